@@ -301,6 +301,37 @@ func c09(c *Ctx) {
 				}
 				return true
 			})
+			// the same on the CFG (also covers one loop with an encoding branch inside): no path from the top of the body
+			// back to the loop header avoids a batch.Put; paths that leave the function (return err) are fine
+			if !put && len(rs.Body.List) > 0 {
+				g := c.Graph(fi)
+				bodyStart := g.VertexOf(rs.Body.List[0])
+				isPut := func(x int) bool {
+					if g.V[x].Node == nil {
+						return false
+					}
+					for _, call := range astx.Calls(g.V[x].Node, false) {
+						if se, ok := ast.Unparen(call.Fun).(*ast.SelectorExpr); ok && se.Sel.Name == "Put" {
+							if fn := astx.Callee(info, call); fn != nil && fn.Pkg() != nil && fn.Pkg().Path() == pathLevelDB {
+								return true
+							}
+						}
+					}
+					return false
+				}
+				if bodyStart >= 0 && !isPut(bodyStart) {
+					avoid := g.Reach(bodyStart, isPut, nil)
+					back := false
+					for _, v := range g.V {
+						for _, e := range v.Succ {
+							if e.To == bodyStart && avoid[v.ID] {
+								back = true // the header is reachable again without a Put
+							}
+						}
+					}
+					put = !back
+				}
+			}
 			r.Check(put && !skip, "C09.L2", fi.Name(), "every entry handed over is written", c.P.Pos(rs.Pos()), "unconditional batch.Put per entry", "StoreLogs skips entries (conditional write or continue/break in the loop)")
 			return true
 		})
